@@ -24,6 +24,9 @@ import (
 	"github.com/acquirecloud/golibs/kvs"
 	dist "github.com/acquirecloud/golibs/kvs/distlock"
 	"github.com/acquirecloud/golibs/kvs/inmem"
+	gredis "github.com/acquirecloud/golibs/kvs/redis"
+	"github.com/alicebob/miniredis/v2"
+	"github.com/go-redis/redis/v8"
 	"github.com/acquirecloud/golibs/logging"
 	"github.com/acquirecloud/golibs/timeout"
 )
@@ -74,6 +77,10 @@ type Case struct {
 	// TTL/5: a lease that is not in force while its lock is held is reported like a lapse of the tenure under study
 	// (it has to persist over three runs in a process whose sleep canary is quiet).
 	Crowd int `json:"crowd,omitempty"`
+	// the store under the gate is the Redis client over an in-process miniredis server whose clock is moved forward by
+	// the real time that has passed, once a millisecond (the server keeps the TTL of the lock record, the client sends
+	// it): leases of a few hundred milliseconds must be kept on this backend, too
+	Redis bool `json:"redis,omitempty"`
 	Pre  string `json:"pre,omitempty"`
 	PreK int    `json:"pre_k,omitempty"`
 	Jit   uint64 `json:"jit"`
@@ -116,7 +123,32 @@ func sleepUntil(t time.Time) {
 func runScenario(cs Case) (o *outcome) {
 	o = &outcome{cs: cs}
 	ttl := time.Duration(cs.TTLms) * time.Millisecond
-	c := newCore(inmem.New(), ttl)
+	var inner kvs.Storage = inmem.New()
+	if cs.Redis {
+		mr, err := miniredis.Run()
+		if err != nil {
+			o.fatal = "miniredis: " + err.Error()
+			return
+		}
+		defer mr.Close()
+		stopPump := make(chan struct{})
+		defer close(stopPump)
+		go func() {
+			last := time.Now()
+			for {
+				select {
+				case <-stopPump:
+					return
+				case <-time.After(time.Millisecond):
+				}
+				now := time.Now()
+				mr.FastForward(now.Sub(last))
+				last = now
+			}
+		}()
+		inner = gredis.New(&redis.Options{Addr: mr.Addr()})
+	}
+	c := newCore(inner, ttl)
 	for _, f := range cs.Faults {
 		c.faults[f.K] = f.Kind
 	}
@@ -724,6 +756,16 @@ func runWithPolicy(cs Case, tl *tally) *outcome {
 			return o
 		}
 		noisy := o.canaryMax > ttl/8
+		if o.lapse && o.premise && !noisy && o.failCode != 0 {
+			// the lease of the live holder was not in force (its record had run out / was absent / a contender got the
+			// lock / its renewal was refused) although the measured timing met the premise of lease_kept and the canaries
+			// were quiet: no load can cause that, and whatever the contenders did afterwards (counted as disturbance
+			// below) is its consequence
+			if o.failCode != 6 && o.failCode != 7 {
+				o.failCode, o.failText = 4, o.lapseWhat+" ("+o.failText+")"
+			}
+			return o
+		}
 		disturbed := o.contCAS > 0 || o.noiseOdd > 0
 		if !disturbed {
 			if o.failCode == 0 {
@@ -949,6 +991,10 @@ func generate(seed uint64, thorough bool) []Case {
 			}
 			// (vi) like (iv) "before", then the same Locker is locked again, its Create in flight
 			add(Case{TTLms: ttl, Acq: acq(), End: "race_before", EndK: r.Range(1, 2), Relock: true})
+			// (x) the Redis backend under the gate: long hold, contender and observer as in (i)
+			if !big && (thorough || round < 2) && ttl >= 200 {
+				add(Case{TTLms: ttl, Acq: acq(), End: "unlock", HoldU: r.Range(72, 100), Redis: true})
+			}
 			// (viii) an earlier tenure of the same Locker object, unlocked with a renewal in flight; the second tenure is studied
 			for _, pre := range []string{"rel-lock", "lock-rel"} {
 				if thorough || (round+ttl/40)%2 == 0 || pre == "rel-lock" {
@@ -1063,6 +1109,9 @@ func main() {
 		}
 		if cs.Crowd > 0 {
 			s.Count(fmt.Sprintf("crowd-of-held-locks:%d", cs.Crowd))
+		}
+		if cs.Redis {
+			s.Count("backend:redis-over-miniredis")
 		}
 		s.Count(fmt.Sprintf("ttl:%dms", cs.TTLms))
 		s.Count("end:" + cs.End)
